@@ -85,6 +85,8 @@ ASSUMPTIONS = ["wrapped functions are deterministic, finite and pure (the record
                "coordinate monomials of the cell cubic); clauses whose allowance exceeds 1e-3 S count as *_weak only",
                "each case runs in a forked child (os.fork + pipe); a child killed by a signal is a violation crash:<Class>:<SIG>",
                "value bounds are finite with min <= max"]
+ASAN_MODULES = ['cherab.core.math.caching.caching1d', 'cherab.core.math.caching.caching2d', 'cherab.core.math.caching.caching3d', 'cherab.core.math.interpolators.utility']
+ASAN = dict(cases=600, workers=8, timecap=240)
 QUICK = dict(cases=600, workers=2, timecap=30)
 THOROUGH = dict(cases=40000, workers=16, timecap=600)
 REQUIRED = {"history": 3000, "repeat": 100, "outside_raise": 300, "outside_passthrough": 300, "inside": 3000,
